@@ -123,7 +123,7 @@ func catalogue() []corruption {
 			return true
 		}},
 		{"eth1-data/other-vote", true, func(s *sim, r *blockRefs, _ *stateBox) bool { r.eth1.BlockHash[0] ^= 1; return true }}, // stays valid
-		{"graffiti", true, func(s *sim, r *blockRefs, _ *stateBox) bool { r.graffiti[0] ^= 0x55; return true }},           // stays valid
+		{"graffiti", true, func(s *sim, r *blockRefs, _ *stateBox) bool { r.graffiti[0] ^= 0x55; return true }},                // stays valid
 		{"attestation/signature", true, func(s *sim, r *blockRefs, _ *stateBox) bool {
 			if len(*r.atts) == 0 {
 				return false
